@@ -526,6 +526,9 @@ def c20(ck):
                 cases.append(([op + "org.varlink.service." + en], False, 0))
                 cases.append((["c1", "r", "c0", op + "org.varlink.service." + en], True, 0))
         cases.append((["E:com.example.Custom"], False, 0))
+        # error replies that spell out "continues": false (alone, and as the end of a stream)
+        cases += [(["Ef:com.example.Custom"], False, 1), (["Ef:org.example.a.Failed"], True, 2), (["c1", "r", "r", "c0", "Ef:com.example.Boom"], True, 3),
+                  (["Ef:org.varlink.service.MethodNotFound"], False, 4)]
         # the final reply spells out "continues": false
         cases += [(["rf"], True, 1), (["c1", "r", "r", "c0", "rf"], True, "s"), (["rf"], False, 2)]
         # "unix-mode": the documented parameter form unix:/path;mode=0600 names the same socket
